@@ -634,7 +634,7 @@ fn run_case(family: &str, n: u64, cc: &mut ChildCtx) {
             }
         }
         "programs" => {
-            thread_local! { static G: gen::Gen = gen::Gen::new(gen::Opts { depth: 2, max_programs: u64::MAX, multi_template: false, loop_controls: true }); }
+            thread_local! { static G: gen::Gen = gen::Gen::new(gen::Opts { depth: 2, max_programs: u64::MAX, multi_template: false, loop_controls: true, extra_leaves: false }); }
             let src = G.with(|g| g.program(n).source());
             for c in gen::contexts().iter().skip(1).take(1) {
                 exercise_template(env, &src, c, cc);
@@ -656,7 +656,7 @@ fn describe(family: &str, n: u64) -> String {
             format!("{} {} {}", edge[(n / OPS.len() as u64 / ne) as usize].name, OPS[(n % OPS.len() as u64) as usize], edge[((n / OPS.len() as u64) % ne) as usize].name)
         }
         "depth" => format!("{} depth {}", DEPTH_SHAPES[(n as usize) / DEPTHS.len()], DEPTHS[(n as usize) % DEPTHS.len()]),
-        "programs" => gen::Gen::new(gen::Opts { depth: 2, max_programs: u64::MAX, multi_template: false, loop_controls: true }).program(n).source(),
+        "programs" => gen::Gen::new(gen::Opts { depth: 2, max_programs: u64::MAX, multi_template: false, loop_controls: true, extra_leaves: false }).program(n).source(),
         "escapes" => format!("string literal body {:?}", ranked_string(n, ESCAPES)),
         "format_specs" => {
             let (a, b) = fmt_case(n);
@@ -752,7 +752,7 @@ pub fn main(args: Args) -> i32 {
     let edge = vals::v_edge(true);
     let nops = (edge.len() * edge.len() * OPS.len()) as u64;
     let ndepth = (DEPTH_SHAPES.len() * DEPTHS.len()) as u64;
-    let nprog = gen::Gen::new(gen::Opts { depth: 2, max_programs: u64::MAX, multi_template: false, loop_controls: true }).size();
+    let nprog = gen::Gen::new(gen::Opts { depth: 2, max_programs: u64::MAX, multi_template: false, loop_controls: true, extra_leaves: false }).size();
     let mut shards = vec![];
     // checked-release build, 2 MiB thread: the big enumerations
     shards.extend(crash::shards_for("frag_template", nfrag, 40_000, "2m", "release"));
